@@ -648,6 +648,7 @@ type gramResult struct {
 	SlotTerms map[string]map[string]string // "Kind.Slot" -> terminal stored there -> a rule that does it
 	MaybeNil  map[string]string            // "Kind.Slot" (vertex slot) -> a rule that embeds a node of that kind whose slot is not known to be filled
 	AnyEmbeds int                          // embeddings of nodes whose kind is unknown to the abstract interpreter (no nil information)
+	KindsBuilt map[string]bool             // ast kinds that some action allocates (their printer order is exercised by the conserve obligations)
 	TokNoChild map[string]string           // "Kind.TokenSlot|ChildSlot" -> a rule that embeds a node with the token present while the child is not known to be present
 }
 
@@ -664,7 +665,7 @@ type gramWant struct {
 }
 
 func (g *gramCtx) checkGrammar(c *CheckCtx, gp *gramParser, want gramWant) *gramResult {
-	res := &gramResult{Name: gp.Name, PairSigs: map[string][]string{}, SlotTerms: map[string]map[string]string{}, MaybeNil: map[string]string{}, TokNoChild: map[string]string{}}
+	res := &gramResult{Name: gp.Name, PairSigs: map[string][]string{}, SlotTerms: map[string]map[string]string{}, MaybeNil: map[string]string{}, TokNoChild: map[string]string{}, KindsBuilt: map[string]bool{}}
 	for _, p := range gp.Problems {
 		c.addOb("internal/"+gp.Name+"/table/grammar-file-matches-generated-parser: "+p, "table", "", false, p)
 	}
@@ -878,6 +879,9 @@ func (g *gramCtx) checkGrammar(c *CheckCtx, gp *gramParser, want gramWant) *gram
 			for _, o := range r.objs {
 				if o.Kind != "node" || o.T == nil || o.T.Obj().Pkg() == nil || o.T.Obj().Pkg().Name() != "ast" {
 					continue
+				}
+				if !o.Input {
+					res.KindsBuilt[o.T.Obj().Name()] = true
 				}
 				st, ok := o.T.Underlying().(*types.Struct)
 				if !ok {
